@@ -12,11 +12,22 @@ def run(ck, replay=None):
                       'checks that the transcribed scheduler loops (runModeTry/runModeTryPipe: wait points, || skipping, abort) agree with the '
                       'pipeline rule of the property on all of them, and exports the table; every block is executed by the real interpreter as '
                       '`try {}` / `trypipe {}` and as a function starting with `runmode try|trypipe function`, and as a try (trypipe) block nested in a function whose runmode directive names the other mode; commands that ran and the exit '
-                      'number are compared.  non-trivial = at least one &&/|| and one non-zero exit; distinct = different (mode, block).' % maxlen)
+                      'number are compared.  A seeded sample runs once more with every pipe logging its own open/close/append events, validated against StreamUse.tla (no pipe closed more often than opened, no write after the last writer left, counters back at 0).  non-trivial = at least one &&/|| and one non-zero exit; distinct = different (mode, block).' % maxlen)
     ck.assumptions += ['blocks where a || alternative heads a longer pipeline are executed but not judged (the property speaks of alternatives as commands)',
                        'tryerr/trypipeerr are not part of the property']
     cases = L.gen_cases(ck, maxlen, ['try', 'trypipe'])
     ck.cov['exhaustive'] = True
     n = L.run_table(ck, cases, ['top', 'fn', 'nest'])
+    # StreamUse.tla on the same blocks: abandoned and skipped commands have their streams closed by the scheduler itself
+    import random
+    from . import streamuselib as SU
+    rng = random.Random(ck.seed)
+    sample = list(cases)
+    rng.shuffle(sample)
+    jobs = []
+    for k, c in enumerate(sample[:(300 if quick else 6000)]):
+        for v in ('top', 'fn', 'nest'):
+            jobs.append({'id': len(jobs) + 1, 'src': L.render(c, len(jobs) + 1, v, rng)})
+    SU.run_binding(ck, jobs, perturb=ck.seed * 100 + 3, tag='su')
     if not ck.violations and n < 100:
         raise common.Infra('vacuous: %d non-trivial programs' % n)
